@@ -45,11 +45,23 @@ def main():
 
     import harness
     try:
-        import bycycle
+        if a._shard and a._shard.startswith('fuzz-'):
+            # coverage-guided part: the code under test has to be imported under atheris' instrumentation
+            try:
+                sys.path.insert(0, os.path.join(os.path.dirname(HERE), '.deps'))
+                import atheris
+                with atheris.instrument_imports(include=['bycycle']):
+                    import bycycle
+                    mod = importlib.import_module('props.' + a.prop.lower())
+            except ImportError:
+                import bycycle
+                mod = importlib.import_module('props.' + a.prop.lower())
+        else:
+            import bycycle
+            mod = importlib.import_module('props.' + a.prop.lower())
         if not os.path.abspath(bycycle.__file__).startswith(os.path.abspath(REPO) + os.sep):
             print('HARNESS-ERROR: bycycle imported from %s, expected %s' % (bycycle.__file__, REPO))
             return 2
-        mod = importlib.import_module('props.' + a.prop.lower())
     except Exception:
         import traceback
         print('HARNESS-ERROR: cannot import code under test or property module\n' + traceback.format_exc())
@@ -59,6 +71,8 @@ def main():
         pname, k, n = a._shard.rsplit(':', 2)
         part = next(p for p in mod.PARTS if p.name == pname)
         res = harness.run_shard(mod, part, tier, seed, int(k), int(n))
+        if part.kind == 'fuzz' and os.path.exists(a._out):
+            return 0                      # written from inside the fuzz target
         with open(a._out, 'w') as fh:
             json.dump(res, fh, default=harness._json_default)
         return 0
